@@ -103,6 +103,8 @@ type HostSpec struct {
 	RedirectTo     int    `json:"redirect_to"`               // blob GET redirected to this host (-1 none; may be itself)
 	RedirectStatus int    `json:"redirect_status,omitempty"` // 301 302 303 307 308
 	RedirectScheme string `json:"redirect_scheme,omitempty"` // "" natural scheme of the target
+	Chain          []int  `json:"chain,omitempty"`           // blob GET (and HEAD) redirected along this sequence of hosts (1-4 hops, repetition allowed; may contain the registry itself); overrides RedirectTo
+	ChainHead      bool   `json:"chain_head,omitempty"`      // HEAD requests are redirected along the chain too
 	Upload         int    `json:"upload"`                    // upload sessions are handed to this host (-1 none)
 	LocStyle       int    `json:"loc_style,omitempty"`       // regmodel LocStyle when Upload < 0 (0..3)
 	LocScheme      string `json:"loc_scheme,omitempty"`      // "" | http | https: upload POST answers an absolute Location on this host with that scheme
